@@ -184,12 +184,12 @@ Definition is_zip_name (n : name) : bool :=
   end.
 (* Path(item).with_suffix("") for a name ending in ".zip" *)
 Definition stem (n : name) : name :=
-  let l := list_ascii_of_string n in string_of_list_ascii (firstn (length l - 4) l).
+  let l := list_ascii_of_string n in string_of_list_ascii (firstn (List.length l - 4) l).
 
 (* folder_contains_mostly_zips *)
 Definition mostly_zips (items : list (name * tree)) : bool :=
   let zips := filter is_zip_name (map fst items) in
-  (0 <? length zips) && (length items / 2 <=? length zips).
+  (0 <? List.length zips) && (List.length items / 2 <=? List.length zips).
 
 Definition format_of (c : config) : format :=
   match c_dir c with
